@@ -261,17 +261,13 @@ def attr_family(qualname):
 
 
 def classify(spec, me, asy, what):
-    """signature key of a failing input, computed from the INPUT (not from the model)"""
+    """signature key of a failing input for the OPEN findings, computed from the input and the failure class
+    (not from the model).  Kept narrow: any other failure class on the same input keeps its own key."""
     stems = [spec["stem"], spec.get("stem2") or ""] + list(spec.get("module_of", {}).values())
-    if any(s.endswith("_pb2") for s in stems):
+    if any(s.endswith("_pb2") for s in stems) and what in ("session:AttributeError", "serializer-family"):
         return "pb2-named-proto-file"
-    lowers = {m["name"].lower() for m in spec["methods"]}
-    if "kind" in lowers:
-        return "transport-member-shadows-stub:kind"
-    if me is not None and me["name"].lower() == "close":
-        return "transport-member-shadows-stub:close"
     if me is not None and me["output"]["full"] == "google.protobuf.Empty" and (me["ss"] or me["cs"]) and asy \
-            and what in ("call-count", "payload"):
+            and what == "call-count":
         return "void-streaming:async-call-dropped"
     return None
 
@@ -456,17 +452,10 @@ def run_api(ctx, r, spec, label, per_method=1, informational=None):
             elif p["mode"] == "omitted":
                 arg = {"kind": "omitted"}
             else:
-                arg = {"kind": p["mode"], "msg": canon(p["requests"][0]), "truthy": True}
+                arg = {"kind": p["mode"], "msg": canon(p["requests"][0])}
             mops.append({"op": "c03.run", "naming": mnam, "service": msvc, "method": p["mi"],
                          "empty": canon(codec.decode(spec["methods"][p["mi"]]["input"]["full"], b"")),
                          "flavor": "async" if asy else "sync", "arg": arg, "replies": [canon(x) for x in p["replies"]]})
-    # the truthiness of the instance is an observable of the run-time shell (proto-plus / protobuf `__bool__`)
-    k = 0
-    for asy, sess in zip((False, True), out):
-        for p, res_ in zip(plans, sess.get("calls", [None] * len(plans))):
-            if res_ is not None and p["mode"] == "inst" and "request_bool" in res_:
-                mops[k]["arg"]["truthy"] = bool(res_["request_bool"])
-            k += 1
     mres = ask(ctx, mops)
     k = 0
     for asy, sess in zip((False, True), out):
@@ -538,10 +527,9 @@ def run_api(ctx, r, spec, label, per_method=1, informational=None):
                     sent = [codec.decode(in_full, b) for b in rec["requests"]]
                     unknown = any(codec.unknown_fields(in_full, b) for b in rec["requests"])
                     if sent != p["requests"] or unknown:
-                        key = "payload"
-                        if p["mode"] == "inst" and res_.get("request_bool") is False and mm and mm["diff_package"]:
-                            key = "falsy-request-replaced"
-                        fail(key, f"{fl} {me['name']}({p['mode']}): server decoded {sent}, caller's request is {p['requests']}", me, asy, extra=extra)
+                        dropped = (asy and me["cs"] and me["output"]["full"] == "google.protobuf.Empty" and not unknown
+                                   and sent == p["requests"][:len(sent)])      # the released call was cut short (same defect)
+                        fail("payload" if not dropped else "call-count", f"{fl} {me['name']}({p['mode']}): server decoded {sent}, caller's request is {p['requests']}", me, asy, "call-count" if dropped else "payload", extra)
                 want_ret = expected_ret(me, p["replies"])
                 ok_ret = (ret == want_ret)
                 if void_stream and ret == {"kind": "stream", "items": [None] * len(p["replies"])}:
@@ -635,9 +623,10 @@ def corpus_specs():
     # §9-F12: server-streaming (and bidi) RPC returning Empty
     out.append(("void_streaming", _base_spec([_m("GetBook"), _m("WatchVoid", "Req", E, False, True), _m("ChatVoid", "Req", E, True, True),
                                                      _m("UploadVoid", "Req", E, True, False), _m("Purge", "Req", E)]), None))
+    # regression inputs of repaired defects (findings/C03.json "fixed"): they must PASS
     out.append(("rpc_named_close", _base_spec([_m("GetBook"), _m("Close")]), None))
     out.append(("rpc_named_kind", _base_spec([_m("GetBook"), _m("Kind")]), None))
-    # request type from a proto-plus dependency library: a falsy instance is replaced by an empty message
+    # request type from a proto-plus dependency library, falsy instance (explicitly present default value)
     out.append(("falsy_request_replaced", _base_spec([_m("Annotate", DEP_PKG + ".Note", "Book"), _m("Fetch", "Book", DEP_PKG + ".Note")],
                                                      dep=True, dep_as_library=True, options=f"proto-plus-deps={DEP_PKG}",
                                                      force_request={"method": "Annotate", "value": {"n": 0}}), None))
@@ -764,5 +753,5 @@ CLAIM = dict(
     text="Lean 4 proof, for every well-formed service, every method, both client flavours, every way of passing the request (instance, dict, omitted, iterator) and every list of replies, that the model of the emitted call path constructs the transport and issues exactly one call to /<package>.<Service>/<Method> with the declared arity carrying the caller's request, and returns None for Empty, the reply stream for server-streaming RPCs and the reply otherwise (call_reaches_rpc); with the supporting theorems (path from wire names, stub kind bijection, the three stub-naming sites agree, attribute lookup reaches the own stub, serializer family = class family, coercion equivalence) and counterexample theorems for every forced hypothesis. Tie: T1 bridge of keyword/transport-unsafe tables and the four to_snake_case regexes; T2 of the real wrappers/metadata/utils functions vs the model; T3 of emitted sync and asyncio clients against a loopback gRPC server vs the model's trace; a model-independent oracle decoding wire bytes under the input descriptors.",
     technique="Lean 4 theorems over an executable model of class-body attribute resolution, stub creation and request coercion + translator bridge + differential T2/T3 on generated APIs",
     design="7.3",
-    note="Hypotheses of call_reaches_rpc (WF, truthiness spec, asyncio void server-streaming) are each probed on the real code; the ones inside the property's quantifier are listed in findings/C03.json. gRPC itself, interceptors/logging, LRO/paging wrappers, mixins and flattened arguments are not covered.",
+    note="Hypotheses of call_reaches_rpc (WF, asyncio void streaming) are each probed on the real code; the ones inside the property's quantifier are listed in findings/C03.json. gRPC itself, interceptors/logging, LRO/paging wrappers, mixins and flattened arguments are not covered.",
 )
